@@ -8,6 +8,8 @@ def sh(cmd, cwd=None, timeout=7200):
     return p.returncode, p.stdout.decode(errors="replace")
 src, bid = sys.argv[1], sys.argv[2]
 meta = json.load(open(os.path.join(src, "meta.json")))
+rc, out = sh("git -C /repo status --short")
+assert out.strip() == "", "/repo not clean: " + out
 rc, out = sh(f"git -C /repo apply {os.path.abspath(os.path.join(src, 'patch.diff'))}")
 assert rc == 0, out
 res = {}
@@ -20,7 +22,7 @@ try:
         viol = [l for l in out.split("\n") if l.startswith("VIOLATION")]
         res[p] = {"exit": rc, "violations": viol[:3]}
 finally:
-    sh("git -C /repo checkout -- .")
+    sh("git -C /repo checkout -- . && git -C /repo clean -fdq")
 alarms = sorted(p for p, r in res.items() if r["exit"] != 0)
 meta["alarms"] = alarms
 meta["checks"] = {p: r for p, r in res.items() if r["exit"] != 0}
